@@ -13,6 +13,18 @@ TABLE = {
         note="Trusted: the independent expression model in vlib/cmodel.py (levels table, renderer, expected-AST builder), cross-checked by the renderer/expectation agreeing with the unchanged parser on > 200 000 cases.",
         ref="DESIGN.md section 4, C02",
     ),
+    "C03": dict(
+        technique="model-based oracle: exhaustive enumeration of declarator derivation sequences x contexts + Hypothesis-generated full declarations, compared with the AST the inside-out declarator rule gives; specifier census",
+        text="Every derivation sequence up to length 3 (quick) / 4 (thorough) over 19 pointer/array/function constructors is placed in 11 declaration and type-name contexts and the parsed chain must equal the derivation order; Hypothesis generates complete declarations (specifier shuffles, multi-declarators, initializers with designators, bit-fields, bodies, K&R and prototype definitions). Complete inside the bound, statistical beyond; _Atomic(T) beyond its simplest form is excluded (known findings F12*).",
+        note="Trusted: the declaration model in vlib/cmodel.py (inside-out renderer and expected-AST builder) and the normalisation of TypeDecl.align / Typename.name.",
+        ref="DESIGN.md section 4, C03",
+    ),
+    "C05": dict(
+        technique="model-based oracle: exhaustive enumeration of statement trees and switch bodies + Hypothesis-generated bodies, compared with the grammar nesting and an independent re-implementation of the documented switch regrouping",
+        text="All statement trees to depth 2 (quick) / 3 (thorough, restricted binary nodes) and all switch bodies with up to 4 / 5 direct items are parsed as function bodies and compared with the expected nesting; Hypothesis adds deep random bodies with pragmas at every boundary. Complete inside the bound, statistical beyond; block-scope _Static_assert is excluded (known finding F19).",
+        note="Trusted: the statement model and the regrouping re-implemented from the docstring of fix_switch_cases (vlib/cmodel.py).",
+        ref="DESIGN.md section 4, C05",
+    ),
     "C06": dict(
         technique="exhaustive enumeration of short token sequences + Hypothesis token-mutation and character-noise fuzzing, outcome-class oracle",
         text="Every token sequence up to length 3 (quick) / 4 and 5 over a reduced alphabet (thorough) after 8 context prefixes is parsed and its outcome classified; beyond that, Hypothesis mutates valid programs at token level and generates character noise. Complete inside the enumerated bound, statistical outside it; absence of crashes on longer inputs is not established.",
